@@ -19,6 +19,7 @@ fn replay_fn(prop: &str) -> Option<fn(&str, &serde_json::Value) -> Verdict> {
         "C01" => Some(props::c01::replay),
         "C02" => Some(props::c02::replay),
         "C09" => Some(props::c09::replay),
+        "C10" => Some(props::c10::replay),
         "C11" => Some(props::c11::replay),
         "C12" => Some(props::c12::replay),
         "C03" => Some(props::c03::replay),
@@ -57,6 +58,7 @@ fn main() {
                 "C01" => props::c01::run(&ctx),
                 "C02" => props::c02::run(&ctx),
                 "C09" => props::c09::run(&ctx),
+                "C10" => props::c10::run(&ctx),
                 "C11" => props::c11::run(&ctx),
                 "C12" => props::c12::run(&ctx),
                 "C03" => props::c03::run(&ctx),
